@@ -12,6 +12,7 @@ import DateutilVerif.Proofs.RDAlgebra
 import DateutilVerif.Proofs.RDGenEq
 import DateutilVerif.Model.RDHistory
 import DateutilVerif.Proofs.RDScale
+import DateutilVerif.Generated.WdOps
 
 namespace C16
 open RDM RDP
@@ -625,6 +626,197 @@ theorem mulDyadic_spec_gen (d r : RD) (f : RDPy.Dy) (p : RDPy.Pow2)
   have := mulDyadic_spec d f.m f.k
   exact ⟨this.1, this.2.2.2.2.2.2.2.2.2.2.1, this.2.2.2.2.2.2.2.2.2.2.2⟩
 
+/-! ## `dateutil._common.weekday` — the objects in relativedelta's `weekday` field (and rrule's BYDAY)
+
+`Gen.wdInit / wdCall / wdEq / wdNe / wdHash / wdReduce / wdRepr` are translated from `_common.py` (`Gen.wdInitRR` from
+`rrule.weekday.__init__`) on every run; `WdPy.Wd = Int × Option Int` is the type of `RD.weekday`'s payload. -/
+
+/-- `("MO", …, "SU")[w]`: IndexError outside −7..6, negative indices wrap -/
+theorem getIdx_names (w : Int) :
+    Py.getIdx WdPy.names w = if w < -7 ∨ w ≥ 7 then .error .IndexError
+      else .ok (WdPy.names.getD (if w < 0 then w + 7 else w).toNat "") := by
+  by_cases hr : w < -7 ∨ w ≥ 7
+  · rw [if_pos hr]
+    unfold Py.getIdx
+    have hl : ((WdPy.names.length : Nat) : Int) = 7 := by decide
+    simp only [hl]
+    rw [if_pos (by split <;> omega)]
+  · rw [if_neg hr]
+    have : w = -7 ∨ w = -6 ∨ w = -5 ∨ w = -4 ∨ w = -3 ∨ w = -2 ∨ w = -1 ∨ w = 0 ∨ w = 1 ∨ w = 2 ∨ w = 3 ∨ w = 4 ∨
+        w = 5 ∨ w = 6 := by omega
+    rcases this with h | h | h | h | h | h | h | h | h | h | h | h | h | h <;> subst h <;> decide +kernel
+
+/-- **gen_weekday_eq_model.** Every translated method of `weekday` equals the hand model. -/
+theorem gen_weekday_eq_model (w : WdPy.Wd) (n : Option Int) (o : WdPy.Other) (a : Int) :
+    Gen.wdInit a n = .ok (a, n) ∧ Gen.wdCall Gen.wdInit w n = .ok (WdPy.call w n) ∧ Gen.wdEq w o = .ok (WdPy.eq w o) ∧
+    Gen.wdNe w o = .ok (WdPy.ne w o) ∧ Gen.wdHash w = .ok (WdPy.hashKey w) ∧ Gen.wdReduce w = .ok w ∧
+    Gen.wdRepr w = WdPy.repr w ∧ Gen.wdInitRR a n = WdPy.initRR a n ∧
+    Gen.wdCall Gen.wdInitRR w n = WdPy.callRR w n := by
+  have hEq : Gen.wdEq w o = .ok (WdPy.eq w o) := by
+    unfold Gen.wdEq WdPy.eq
+    cases o with
+    | noAttr => rfl
+    | wd v =>
+      obtain ⟨w1, w2⟩ := w; obtain ⟨v1, v2⟩ := v
+      by_cases h1 : w1 = v1 <;> by_cases h2 : w2 = v2 <;> simp [h1, h2]
+  refine ⟨rfl, ?_, hEq, ?_, rfl, rfl, ?_, ?_, ?_⟩
+  · unfold Gen.wdCall WdPy.call Gen.wdInit
+    by_cases h : n = w.2
+    · simp [h, Except.bind]
+    · simp [h, Except.bind]
+  · unfold Gen.wdNe; rw [hEq]; simp [Except.bind, WdPy.ne]
+  · unfold Gen.wdRepr
+    rw [show (["MO", "TU", "WE", "TH", "FR", "SA", "SU"] : List String) = WdPy.names from rfl, getIdx_names]
+    unfold WdPy.repr
+    obtain ⟨w1, w2⟩ := w
+    by_cases hr : w1 < -7 ∨ w1 ≥ 7
+    · simp [hr, Except.bind]
+    · cases w2 with
+      | none => simp [hr, Except.bind, WdPy.truthy]
+      | some v => by_cases hv : v = 0 <;> simp [hr, Except.bind, WdPy.truthy, WdPy.fmtNth, hv]
+  · unfold Gen.wdInitRR WdPy.initRR Gen.wdInit; rfl
+  · unfold Gen.wdCall WdPy.callRR Gen.wdInitRR Gen.wdInit
+    by_cases h : n = w.2
+    · simp [h]
+    · by_cases h0 : n = some 0 <;> simp [h, h0, Except.bind]
+
+/-- **weekday_eq_hash.** On weekday objects `==` is an equivalence (it is equality of the two slots), `!=` its negation,
+    equal objects hash equal (the hashed tuple is the pair of slots), and nothing without the attributes is equal to one. -/
+theorem weekday_eq_hash (a b c : WdPy.Wd) :
+    Gen.wdEq a (.wd a) = .ok true ∧
+    (Gen.wdEq a (.wd b) = .ok true ↔ a = b) ∧
+    (Gen.wdEq a (.wd b) = .ok true → Gen.wdEq b (.wd a) = .ok true) ∧
+    (Gen.wdEq a (.wd b) = .ok true → Gen.wdEq b (.wd c) = .ok true → Gen.wdEq a (.wd c) = .ok true) ∧
+    (Gen.wdEq a (.wd b) = .ok true → Gen.wdHash a = Gen.wdHash b) ∧
+    Gen.wdEq a .noAttr = .ok false ∧ Gen.wdNe a .noAttr = .ok true := by
+  have h : ∀ x y : WdPy.Wd, Gen.wdEq x (.wd y) = .ok true ↔ x = y := by
+    intro x y
+    rw [(gen_weekday_eq_model x none (.wd y) 0).2.2.1]
+    simp [WdPy.eq]
+  refine ⟨(h a a).2 rfl, h a b, fun e => (h b a).2 ((h a b).1 e).symm,
+    fun e1 e2 => (h a c).2 (((h a b).1 e1).trans ((h b c).1 e2)), fun e => by rw [(h a b).1 e], ?_, ?_⟩
+  · rw [(gen_weekday_eq_model a none .noAttr 0).2.2.1]; rfl
+  · rw [(gen_weekday_eq_model a none .noAttr 0).2.2.2.1]; rfl
+
+/-- **weekday_n_strict_here.** At the level of the weekday class `n` absent, 0 and 1 are THREE different objects (`MO != MO(+1)`,
+    different hashed tuples); it is `relativedelta.__eq__` / `__hash__` (`RDM.wdEq`, `hashKey`) that identify them — the C16
+    law "equal deltas hash equal, including weekdays whose n is absent, 0 or 1" lives there, and the two levels agree
+    wherever the weekday class says equal. -/
+theorem weekday_n_strict_here (w : Int) :
+    Gen.wdEq (w, none) (.wd (w, some 1)) = .ok false ∧ Gen.wdEq (w, some 0) (.wd (w, some 1)) = .ok false ∧
+    Gen.wdHash (w, none) ≠ Gen.wdHash (w, some 1) ∧
+    RDM.wdEq (some (w, none)) (some (w, some 1)) = true ∧ RDM.wdEq (some (w, some 0)) (some (w, some 1)) = true ∧
+    (∀ a b : WdPy.Wd, Gen.wdEq a (.wd b) = .ok true → RDM.wdEq (some a) (some b) = true) := by
+  refine ⟨?_, ?_, ?_, ?_, ?_, ?_⟩
+  · rw [(gen_weekday_eq_model _ none _ 0).2.2.1]; simp [WdPy.eq]
+  · rw [(gen_weekday_eq_model _ none _ 0).2.2.1]; simp [WdPy.eq]
+  · simp [Gen.wdHash]
+  · simp [RDM.wdEq, RDM.nTrivial]
+  · simp [RDM.wdEq, RDM.nTrivial]
+  · intro a b h
+    rw [(weekday_eq_hash a b a).2.1] at h
+    subst h
+    obtain ⟨x, n⟩ := a
+    simp [RDM.wdEq]
+
+/-- **weekday_call_spec.** `wd(n)` is the weekday `wd.weekday` with the new `n`; it is the SAME object exactly when `n` equals
+    the object's own `n` (so `MO(None) is MO`, `MO(+1)(+1)` is itself, and `MO(+1)` builds a new object on every call). -/
+theorem weekday_call_spec (w r : WdPy.Wd) (n : Option Int) (same : Bool) (h : Gen.wdCall Gen.wdInit w n = .ok (r, same)) :
+    r = (w.1, n) ∧ (same = true ↔ n = w.2) ∧ (same = true → r = w) := by
+  rw [(gen_weekday_eq_model w n .noAttr 0).2.1] at h
+  injection h with h
+  unfold WdPy.call at h
+  injection h with h1 h2
+  refine ⟨h1.symm, ?_, ?_⟩
+  · rw [← h2]; simp
+  · intro hs; rw [← h2] at hs; simp at hs; rw [← h1, hs]
+
+/-- **weekday_call_rrule.** For an object of class `rrule.weekday` the new object is built by THAT class: `MO(0)` raises ValueError,
+    every other `n` behaves as in the base class. -/
+theorem weekday_call_rrule (w : WdPy.Wd) (n : Option Int) :
+    (n ≠ some 0 ∨ n = w.2 → Gen.wdCall Gen.wdInitRR w n = Gen.wdCall Gen.wdInit w n) ∧
+    (n = some 0 → w.2 ≠ some 0 → Gen.wdCall Gen.wdInitRR w n = .error .ValueError) := by
+  rw [(gen_weekday_eq_model w n .noAttr 0).2.2.2.2.2.2.2.2, (gen_weekday_eq_model w n .noAttr 0).2.1]
+  unfold WdPy.callRR WdPy.call
+  constructor
+  · intro h
+    by_cases e : n = w.2
+    · simp [e]
+    · have h0 : n ≠ some 0 := by rcases h with h | h; exact h; exact absurd h e
+      simp [e, h0]
+  · intro h0 hw
+    subst h0
+    have e : ¬ (some (0 : Int) = w.2) := fun x => hw x.symm
+    simp [e]
+
+/-- **weekday_repr_spec.** `repr`: the bare two-letter name when `n` is None or 0 (so `repr` does not distinguish them), the name
+    followed by the signed `n` in parentheses otherwise; IndexError exactly outside −7..6. -/
+theorem weekday_repr_spec (w : Int) (n : Option Int) :
+    (w < -7 ∨ w ≥ 7 → Gen.wdRepr (w, n) = .error .IndexError) ∧
+    (0 ≤ w → w < 7 → Gen.wdRepr (w, none) = .ok (WdPy.names.getD w.toNat "") ∧
+                      Gen.wdRepr (w, some 0) = Gen.wdRepr (w, none) ∧
+                      (∀ v, v ≠ 0 → Gen.wdRepr (w, some v) =
+                         .ok (WdPy.names.getD w.toNat "" ++ "(" ++ WdPy.fmtSigned v ++ ")"))) := by
+  simp only [(gen_weekday_eq_model _ none .noAttr 0).2.2.2.2.2.2.1, WdPy.repr]
+  refine ⟨fun h => by simp [h], fun h0 h7 => ?_⟩
+  have hn : ¬ (w < -7 ∨ w ≥ 7) := by omega
+  have hw : ¬ w < 0 := by omega
+  simp [hn, hw]
+  intro v hv; simp [hv]
+
+/-- **gen_ne_eq_model.** The translated `__ne__` is the negation of the translated `__eq__` (hence of the model's `eq`). -/
+theorem gen_ne_eq_model (a b : RD) : Gen.ne a b = .ok (!RDM.eq a b) := by
+  unfold Gen.ne
+  rw [RDG.eq_eq]
+  cases RDM.eq a b <;> simp [Except.bind]
+
+/-! ## `repr` and the `weeks` property, translated -/
+
+theorem rel_step (l : List String) (name : String) (v : Int) :
+    (if v ≠ 0 then l ++ [name ++ "=" ++ RDPy.fmtPlusG v] else l) = l ++ RDH.relPart name v := by
+  unfold RDH.relPart; split <;> simp
+
+theorem rel_first (name : String) (v : Int) :
+    (if v ≠ 0 then [name ++ "=" ++ RDPy.fmtPlusG v] else []) = RDH.relPart name v := rfl
+
+theorem abs_step (l : List String) (name : String) (v : Option Int) :
+    (if v ≠ none then l ++ [name ++ "=" ++ RDPy.reprOptInt v] else l) = l ++ RDH.absPart name v := by
+  cases v <;> simp [RDH.absPart, RDPy.reprOptInt]
+
+/-- **gen_repr_weeks_eq_model.** The translated `weeks` getter and setter and `__repr__` ARE the history model's `weeksOf`,
+    `setWeeks` and `reprOf` (over the translated `weekday.__repr__`). -/
+theorem gen_repr_weeks_eq_model (d : RD) (v : Int) :
+    Gen.weeks d = .ok (RDH.weeksOf d) ∧ Gen.setWeeks d v = .ok (RDH.setWeeks d v) ∧
+    Gen.repr d = RDH.reprOf Gen.wdRepr d := by
+  refine ⟨rfl, rfl, ?_⟩
+  unfold Gen.repr RDH.reprOf
+  simp only [rel_step, abs_step, List.nil_append]
+  cases hw : d.weekday with
+  | none => simp only [Except.bind, List.append_assoc, rel_first]
+  | some w =>
+    simp only [Except.bind]
+    cases Gen.wdRepr w with
+    | error e => rfl
+    | ok s => simp only [rel_step, abs_step, List.append_assoc, List.cons_append, List.nil_append, rel_first]
+
+/-- **repr_spec.** What `repr` shows: exactly the non-zero relative fields and the absolute fields that are set (a delta with no
+    field set prints `relativedelta()`), so two deltas with the same repr and an in-range weekday… the converse is NOT claimed:
+    `+g` keeps six significant digits (`years=1234567` prints `+1.23457e+06`), `weekday=MO` and `weekday=MO(0)` print alike. -/
+theorem repr_spec (d : RD) :
+    (RDM.bool d = false → Gen.repr d = .ok "relativedelta()") ∧
+    (d.weekday = none → ∃ s, Gen.repr d = .ok s) := by
+  rw [(gen_repr_weeks_eq_model d 0).2.2]
+  constructor
+  · intro h
+    have hb := (bool_iff_no_field d).1 h
+    obtain ⟨h1, h2, h3, h4, h5, h6, h7, h8, h9, h10, h11, h12, h13, h14, h15, h16⟩ := hb
+    unfold RDH.reprOf
+    simp [h1, h2, h3, h4, h5, h6, h7, h8, h9, h10, h11, h12, h13, h14, h15, h16, RDH.relPart, RDH.absPart]
+  · intro h
+    unfold RDH.reprOf
+    rw [h]
+    exact ⟨_, rfl⟩
+
 -- non-vacuity / sanity
 example : Gen.fix { seconds := -3661, microseconds := 2500000 } =
     { hours := -1, minutes := 0, seconds := -59, microseconds := 500000, hasTime := 1 } := by decide
@@ -648,4 +840,13 @@ example : mulDyadic { days := 3, hours := 5, years := 1, months := 2 } 1 1 = { d
 example : divPow2 { days := -7, minutes := 90 } true 1 = { days := 3, minutes := -45, hasTime := 1 } := by decide +kernel
 example : normalizedInt { hours := 100, minutes := -61, hasTime := 0 } = { days := 4, hours := 3, minutes := -1, hasTime := 1 } := by
   decide +kernel
+example : Gen.wdRepr (0, some (-2)) = .ok "MO(-2)" ∧ Gen.wdRepr (6, some 1) = .ok "SU(+1)" ∧ Gen.wdRepr (-1, none) = .ok "SU" := by
+  decide +kernel
+example : Gen.wdCall Gen.wdInit (0, some 1) (some 1) = .ok ((0, some 1), true) ∧ Gen.wdCall Gen.wdInit (0, none) (some 1) = .ok ((0, some 1), false) ∧
+    Gen.wdCall Gen.wdInitRR (0, none) (some 0) = .error .ValueError := by
+  decide +kernel
+example : Gen.repr { years := -7620747, days := 3, month := some 3, weekday := some (2, some 5), hasTime := 0 } =
+    .ok "relativedelta(years=-7.62075e+06, days=+3, month=3, weekday=WE(+5))" := by decide +kernel
+example : RDPy.fmtPlusG 1000000 = "+1e+06" ∧ RDPy.fmtPlusG (-999999) = "-999999" ∧ RDPy.fmtPlusG 1234565 = "+1.23456e+06" ∧
+    RDPy.fmtPlusG 9999995 = "+1e+07" := by decide +kernel
 end C16
